@@ -68,7 +68,7 @@ func (S) Info() scen.Info {
 			"reference model":      "write-once map (direct interval rule + porcupine v1.3.0 nondeterministic model, partitioned by key)",
 		},
 		QuickUnits: 60000, ThoroughUnits: 3000000, QuickSecs: 240, ThoroughSecs: 1200,
-		ProbeKeys: []string{"probe.fallback_putstream", "probe.fallback_getstream", "probe.fallback_peek", "probe.fallback_putvec", "probe.buffer_scribbled", "probe.key_with_nul", "probe.key_with_slash", "probe.key_dotdot", "probe.key_empty", "probe.concurrent_put_read", "probe.failed_put", "probe.porcupine_checked", "probe.empty_content", "probe.via_linksystem_openers", "probe.putvec_same_vector_twice", "probe.get_result_scribbled"},
+		ProbeKeys: []string{"probe.fallback_putstream", "probe.fallback_getstream", "probe.fallback_peek", "probe.fallback_putvec", "probe.buffer_scribbled", "probe.key_with_nul", "probe.key_with_slash", "probe.key_dotdot", "probe.key_empty", "probe.concurrent_put_read", "probe.failed_put", "probe.porcupine_checked", "probe.empty_content", "probe.via_linksystem_openers", "probe.putvec_same_vector_twice", "probe.get_result_scribbled", "probe.large_block"},
 		EventsKey: "events",
 	}
 }
@@ -253,9 +253,18 @@ func (S) RunTape(t *sim.Tape, st *sim.Stats, keepLog bool) *sim.Outcome {
 	// ---- keys and contents ----
 	nkeys := 3 + t.Choice(8, "nkeys")
 	seen := map[string]bool{}
+	// one block in some histories is large (beyond any size from which an implementation might
+	// start treating blocks differently: pooled or shared read buffers, chunked copies)
+	bigKey := -1
+	if t.Pct(8, "clen.big") {
+		bigKey = t.Choice(nkeys, "clen.big.key")
+		st.Inc("probe.large_block")
+	}
 	for i := 0; i < nkeys; i++ {
 		var content []byte
 		switch c := t.Choice(10, "clen.class"); {
+		case i == bigKey:
+			content = t.Sub("content").Bytes(128<<10 + t.Choice(3, "clen.big.class")*(64<<10) + t.Choice(5000, "clen"))
 		case c == 0:
 			content = []byte{}
 		case c < 7:
@@ -520,6 +529,9 @@ func (w *world) calls() int {
 var ctx = context.Background()
 
 func (w *world) do(client, kind, k int, pieces []int, end, chunk int, scribble bool) {
+	if len(w.cont[k]) > 1<<16 && chunk < 300 {
+		chunk = 1 << 12 // a large block is not read a byte at a time (the run's step budget)
+	}
 	key, content := w.keys[k], w.cont[k]
 	h := hop{client: client, key: k, inv: w.s.Stamp(), c0: w.calls()}
 	names := []string{"Put", "PutStream", "PutVec", "Get", "GetStream", "Peek", "Has"}
